@@ -44,7 +44,7 @@ def bound(cls, tier):
 def label_form(ctx, case, form, base):
     from comb_spec_searcher.strategies.rule import EquivalencePathRule
 
-    ctx.label("form:" + case["form"][0])
+    ctx.label("form:" + case["form"][0], "strat:" + case["strategy"][0])
     if isinstance(form, EquivalencePathRule):
         for r in form.rules:
             ctx.label("path-member:" + type(r).__name__)
